@@ -331,7 +331,34 @@ static ssize_t controlWrite(const FdInfo& fi, const std::string& val) {
     errno = f->err;
     return -1;
   }
-  record("cwrite", label(fi.inc), fi.name, v, 0, 0, 0, fi.inc);
+  if (c && c->alive && fi.name == "cgroup.freeze" && v == "1" &&
+      R.plan.isMember("empty_on_freeze")) {
+    // the victim's last processes die (kernel OOM killer, an operator's
+    // kill -9) just as oomd starts on it: the n-th freeze of the run finds
+    // the subtree already empty
+    static int nthFreeze = 0;
+    int n = nthFreeze++;
+    for (const auto& k : R.plan["empty_on_freeze"])
+      if (k.asInt() == n) {
+        Bypass b;
+        for (Cg* d : W.subtree(*c)) {
+          d->pids.clear();
+          d->populated = -1;
+          d->pids_current = -1;
+        }
+        W.render();
+        fired("victim-emptied-at-freeze");
+        record("edit", "", "empty-on-freeze " + c->rel);
+      }
+  }
+  int64_t popNow = 0, popSince = 0; // 0 unknown, 1 unpopulated, 2 populated
+  if (c && c->alive && fi.name == "cgroup.kill" &&
+      !c->absent.count("cgroup.events") && !c->empty.count("cgroup.events") &&
+      !c->raw.count("cgroup.events")) {
+    popNow = 1 + c->lastPop;
+    popSince = (int64_t)c->popSince;
+  }
+  record("cwrite", label(fi.inc), fi.name, v, popNow, popSince, 0, fi.inc);
   if (!c || !c->alive) {
     // kernfs: writing through an fd of a removed cgroup fails
     errno = ENODEV;
